@@ -2,6 +2,7 @@ package main
 
 import (
 	"fmt"
+	"regexp"
 	"go/ast"
 	"go/token"
 	"go/types"
@@ -144,7 +145,80 @@ func LoadEngine(repoDir string, patterns []string, depsDir string) (*Engine, err
 			}
 		}
 	}
+	// schematic contracts for generated code (one schema per generated method kind)
+	if depsDir != "" {
+		files, _ := filepath.Glob(filepath.Join(filepath.Dir(depsDir), "schemas", "*.schema"))
+		sort.Strings(files)
+		for _, fn := range files {
+			if err := e.loadSchemas(fn); err != nil {
+				return nil, err
+			}
+		}
+	}
 	return e, nil
+}
+
+// loadSchemas reads "schema <regexp> [exclude <regexp>]" blocks followed by contract clauses and instantiates them for
+// every repository function whose canonical name matches and that has no contract of its own.
+func (e *Engine) loadSchemas(path string) error {
+	b, err := os.ReadFile(path)
+	if err != nil {
+		return err
+	}
+	type block struct {
+		re, ex *regexp.Regexp
+		lines  []string
+		nos    []int
+	}
+	var blocks []*block
+	var cur *block
+	for i, ln := range strings.Split(string(b), "\n") {
+		t := strings.TrimSpace(ln)
+		if t == "" || strings.HasPrefix(t, "#") {
+			continue
+		}
+		if strings.HasPrefix(t, "schema ") {
+			f := strings.Fields(t)
+			cur = &block{re: regexp.MustCompile(f[1])}
+			if len(f) >= 4 && f[2] == "exclude" {
+				cur.ex = regexp.MustCompile(f[3])
+			}
+			blocks = append(blocks, cur)
+			continue
+		}
+		if cur == nil {
+			return fmt.Errorf("%s:%d: clause outside schema block", path, i+1)
+		}
+		cur.lines = append(cur.lines, ln)
+		cur.nos = append(cur.nos, i+1)
+	}
+	var names []string
+	for n := range e.AllFuncs {
+		names = append(names, n)
+	}
+	sort.Strings(names)
+	for _, bl := range blocks {
+		for _, n := range names {
+			fn := e.AllFuncs[n]
+			if !e.inRepo(fn) || fn.Blocks == nil || !bl.re.MatchString(n) || (bl.ex != nil && bl.ex.MatchString(n)) {
+				continue
+			}
+			if _, has := e.Contracts[n]; has {
+				continue
+			}
+			lines := append([]string{"func " + n + " @" + fn.Pkg.Pkg.Path()}, bl.lines...)
+			nos := append([]int{0}, bl.nos...)
+			cf, err := parseContractText(lines, nos, path, "")
+			if err != nil {
+				return err
+			}
+			c := cf.Contracts[0]
+			c.Key = n
+			c.Schema = true
+			e.Contracts[n] = c
+		}
+	}
+	return nil
 }
 
 // FindFunc looks a function up by canonical name.
@@ -272,7 +346,7 @@ func (e *Engine) resolveQualifiedType(s string) types.Type {
 // default closed-world implementations of the reader interfaces (the two readers in std/encoding)
 func (e *Engine) defaultIfaceImpls() {
 	readers := []string{"*" + repoModule + "/std/encoding.BufferReader", "*" + repoModule + "/std/encoding.WireReader"}
-	for _, k := range []string{repoModule + "/std/encoding.ParseReader", "io.ByteReader", "io.Reader"} {
+	for _, k := range []string{repoModule + "/std/encoding.ParseReader", "io.ByteReader"} {
 		e.IfaceImpls[k] = readers
 	}
 }
